@@ -170,6 +170,7 @@ def generate(rnd, tier, scale):
             )
             continue
         srcs = list(range(ns))
+        prime = {"prime": True} if rnd.random() < 0.15 and not any(s.get("raw") or s.get("which_form") in ("iter", "gen") for s in sources) else {}
         if rnd.random() < 0.2 and not any(s.get("which_form") in ("iter", "gen") for s in sources):
             srcs.append(rnd.randrange(ns))  # the same object passed for two parameters: two independent sources
         yield dict(
@@ -177,6 +178,7 @@ def generate(rnd, tier, scale):
             via=via,
             sources=sources,
             srclists=[{"srcs": srcs, "nkw": rnd.randint(0, len(srcs))}],
+            **prime,
             fns=[{"sentinel": [["i:0", 1]], "shape": 0, "acts": acts}],
             calls=[[0, 0, None]],
         )
